@@ -438,6 +438,16 @@ func (x *Exec) specCall(c *SpecCtx, e *Expr) (*Val, error) {
 			return x.ufApp(name, s, ts...)
 		})
 		return v, nil
+	case "errAs":
+		// errAs(err, "typekey"): the predicate errors.As is modelled by for that target type
+		if len(e.Args) != 2 || e.Args[1].Kind != "str" {
+			return nil, fmt.Errorf("errAs(err, \"type key\")")
+		}
+		ev, err := x.specEval(c, e.Args[0])
+		if err != nil {
+			return nil, err
+		}
+		return boolVal(x.ufApp("errAs."+sanitize(e.Args[1].Name), SBool, ev.T)), nil
 	case "headerGet":
 		// headerGet(h, name): first value stored under the canonical name, "" if none (net/http.Header.Get)
 		as, err := evalArgs()
